@@ -77,3 +77,34 @@ pub fn emitted_flags(input: &[u8], pieces: &[&[u8]]) -> Result<Vec<bool>, String
     }
     Ok(flags)
 }
+
+thread_local! {
+    static LAST_PANIC: std::cell::RefCell<String> = std::cell::RefCell::new(String::new());
+}
+
+/// Install a panic hook that records the message (and location) instead of printing it.
+pub fn install_quiet_panic_hook() {
+    std::panic::set_hook(Box::new(|info| {
+        let msg = if let Some(s) = info.payload().downcast_ref::<&str>() {
+            s.to_string()
+        } else if let Some(s) = info.payload().downcast_ref::<String>() {
+            s.clone()
+        } else {
+            "<non-string panic payload>".to_string()
+        };
+        let loc = info.location().map(|l| format!(" at {}:{}", l.file(), l.line())).unwrap_or_default();
+        LAST_PANIC.with(|p| *p.borrow_mut() = format!("{msg}{loc}"));
+    }));
+}
+
+pub fn last_panic() -> String {
+    LAST_PANIC.with(|p| p.borrow().clone())
+}
+
+/// Run code under test; a panic becomes Err("panic: ...").
+pub fn guard<T>(f: impl FnOnce() -> T) -> Result<T, String> {
+    match std::panic::catch_unwind(std::panic::AssertUnwindSafe(f)) {
+        Ok(v) => Ok(v),
+        Err(_) => Err(format!("panic: {}", last_panic())),
+    }
+}
